@@ -8,6 +8,7 @@ import sys, os, json, time, hashlib, glob, re, concurrent.futures, subprocess
 HERE = os.path.dirname(os.path.abspath(__file__))
 sys.path.insert(0, HERE)
 import vx
+import bounded as vb
 
 VERIF = vx.VERIF
 
@@ -75,7 +76,9 @@ def main():
     mine = [u for u, ps in units.items() if prop in ps]
     if only_units:
         mine = [u for u in mine if u in only_units]
-    if not mine:
+    breg = vb.load_registry()
+    my_bounded = [b for b, d in breg.items() if prop in d.get('props', [])] if not only_units else []
+    if not mine and not my_bounded:
         print('UNDECIDED property=%s reason=no-unit-serves-this-property' % prop)
         sys.exit(2)
     findings = load_json('known_findings.json', dict(findings=[]))['findings']
@@ -86,7 +89,9 @@ def main():
     wit_findings = [f for f in findings if f.get('status') == 'open' and f['property'] == prop and f.get('witness_input') is not None and f.get('unit') in mine]
     results = []
     wit_results = {}
-    with concurrent.futures.ThreadPoolExecutor(max_workers=min(12, len(mine) + 2)) as ex:
+    bounded_results = []
+    with concurrent.futures.ThreadPoolExecutor(max_workers=min(12, len(mine) + 2 + len(my_bounded))) as ex:
+        bfuts = {ex.submit(vb.run_bounded, b, tier, repo): b for b in my_bounded}
         futs = {ex.submit(vx.run_unit, u, tier, repo, None, seed): u for u in mine}
         wfuts = {}
         for u in sorted(set(f['unit'] for f in wit_findings)):
@@ -95,7 +100,10 @@ def main():
             results.append(f.result())
         for f in concurrent.futures.as_completed(wfuts):
             wit_results.update(f.result())
+        for f in concurrent.futures.as_completed(bfuts):
+            bounded_results.append(f.result())
     results.sort(key=lambda r: r['unit'])
+    bounded_results.sort(key=lambda r: r['id'])
 
     # thorough: stability re-runs and self-test
     extra = {}
@@ -170,6 +178,30 @@ def main():
         transforms += r['transforms']
         ext_auto += r.get('external_auto', [])
 
+    # ---- bounded stand-ins (never counted in obligations / discharged)
+    bounded_ev = []
+    bounded_known = {f['bounded_signature']: f for f in findings if f.get('status') == 'open' and f['property'] == prop and f.get('bounded_signature')}
+    for br in bounded_results:
+        d = breg.get(br['id'], {})
+        if br['status'] == 'undecided':
+            undecided.append(('bounded:' + br['id'], [br.get('note', '')]))
+        sigs = br.get('signatures') or {}
+        for sig, cnt in sorted(sigs.items()):
+            ex_ = [f for f in br.get('failures', []) if f.get('signature') == sig]
+            if sig in bounded_known:
+                known_lines.append('KNOWN-FINDING: property=%s %s %s (bounded check %s: %d failing inputs, e.g. %s)' % (
+                    prop, bounded_known[sig]['id'], bounded_known[sig].get('what', ''), br['id'], cnt, json.dumps((ex_[0]['graphql'] if ex_ else '')[:200])))
+                continue
+            viol.append(dict(unit='bounded:' + br['id'], clause='%s.bounded.%s:%s' % (prop, br['id'], sig), text=d.get('oracle', ''), kind='bounded-check',
+                             fn=', '.join(d.get('functions', [])), verus_output=['bounded check %s: %d failing inputs with signature: %s' % (br['id'], cnt, sig)] + [json.dumps(e, indent=1) for e in ex_[:2]],
+                             replay=dict(found=True, input=(ex_[0] if ex_ else {}).get('graphql'), observed=(ex_[0] if ex_ else {}).get('got'), expected=(ex_[0] if ex_ else {}).get('why'),
+                                         bounded=br['id'], index=(ex_[0] if ex_ else {}).get('index'))))
+        bounded_ev.append(dict(id=br['id'], label='BOUNDED (stand-in for functions outside the verifier\'s reach; not a proof, not counted in obligations)',
+                               functions=d.get('functions'), why_not_deductive=d.get('why_not_deductive'), oracle=d.get('oracle'),
+                               bound=(d.get('bound') or {}).get(tier), status=br['status'], evaluations=br.get('evaluations'),
+                               distinct_nontrivial=br.get('distinct_nontrivial'), per_family=br.get('per_family'),
+                               rule=d.get('rule'), samples=br.get('samples'), failure_signatures=sigs, wall_s=br.get('wall_s'), note=br.get('note')))
+
     # ---- output
     wit_notes = []
     for f in findings:
@@ -206,6 +238,8 @@ def main():
                        how_to_rerun='cd /verif && ./check %s --replay %s' % (prop, path))
             if rp.get('found'):
                 doc.update(input=rp.get('input'), observed=rp.get('observed'), expected=rp.get('expected'))
+                if rp.get('bounded'):
+                    doc.update(bounded=rp['bounded'], index=rp.get('index'))
                 tail = ''
             else:
                 doc.update(input=None, search=rp or 'unit has no replay harness')
@@ -240,7 +274,7 @@ def main():
                             per_function=per_fn[:600],
                             solver_time_ms=sum((f.get('smt_ms') or 0) for f in per_fn),
                             samples=samples,
-                            bounded=[],
+                            bounded=bounded_ev,
                             auto_external_body=ext_auto,
                             assumed_contracts=assumed_contracts,
                             not_covered=not_cov,
@@ -256,8 +290,9 @@ def main():
     evdir = os.path.join(VERIF, 'evidence') if os.path.realpath(repo) == '/repo' else os.environ.get('VX_SCRATCH_EVIDENCE', '/tmp/vx-scratch-evidence')
     os.makedirs(evdir, exist_ok=True)
     json.dump(ev, open(os.path.join(evdir, prop + '.json'), 'w'), indent=1)
-    print('%s property=%s tier=%s units=%d obligations=%d discharged=%d wall=%.1fs' % (
-        {0: 'OK', 1: 'FAIL', 2: 'UNDECIDED'}[rc], prop, tier, len(mine), obligations, discharged, wall))
+    print('%s property=%s tier=%s units=%d obligations=%d discharged=%d%s wall=%.1fs' % (
+        {0: 'OK', 1: 'FAIL', 2: 'UNDECIDED'}[rc], prop, tier, len(mine), obligations, discharged,
+        ''.join(' bounded:%s=%s(%s cases)' % (b['id'], b['status'], b.get('evaluations')) for b in bounded_results), wall))
     sys.exit(rc)
 
 
@@ -298,6 +333,15 @@ def thorough_extras(prop, mine, repo, seed, results):
 
 def do_replay(prop, path, repo, seed):
     doc = json.load(open(path))
+    if doc.get('bounded'):
+        r = vb.run_bounded(doc['bounded'], doc.get('tier', 'quick'), repo, ['--one', str(doc.get('index'))])
+        print('replay of bounded check %s input #%s against the current tree: %s' % (doc['bounded'], doc.get('index'), json.dumps(dict(status=r['status'], signatures=r.get('signatures')))))
+        for f in r.get('failures', [])[:2]:
+            print(json.dumps(f, indent=1)[:3000])
+        if r['status'] == 'violation':
+            print('VIOLATION property=%s replay=%s' % (prop, path))
+            return 1
+        return 0 if r['status'] == 'ok' else 2
     u = vx.Unit(doc['unit'], repo)
     import tempfile, shutil
     scratch = tempfile.mkdtemp(prefix='vx-replay-')
